@@ -778,12 +778,20 @@ func (m *csMachine) genSend(t *rapid.T) csOp {
 		if len(m.order) > 0 && uni(t, "future", 9+1) > 0 {
 			d := rapid.SampledFrom(m.order).Draw(t, "pool")
 			op.To = "pool:" + d
-			op.Denom = rapid.SampledFrom([]string{std, d, std, d, "point"}).Draw(t, "denom")
-			ref := cell(m.sheet, m.pools[d].addr, op.Denom)
+			op.Denom = rapid.SampledFrom([]string{std, d, std, d, "point", "lpt:" + d}).Draw(t, "denom")
+			ref := cell(m.sheet, m.pools[d].addr, m.resolveDenom(op.Denom))
 			if ref.Sign() == 0 {
 				ref = big.NewInt(1000)
 			}
 			op.A = clampRoom(m.rel(t, "amt", ref), ref).String()
+			if strings.HasPrefix(op.Denom, "lpt:") {
+				// a holder parks some of the pool's own share tokens on the pool's escrow account (they stay outstanding)
+				who, bal := m.holder(t, m.pools[d])
+				op.Who = who
+				if bal.Sign() > 0 {
+					op.A = m.rel(t, "lptamt", bal).String()
+				}
+			}
 		} else {
 			op.To = "next"
 			op.Denom = rapid.SampledFrom([]string{std, "btc", "eth", "usdt", "point"}).Draw(t, "denom")
@@ -1356,6 +1364,9 @@ func (m *csMachine) oracleC02(op csOp, res chain.Result, before chain.Sheet, del
 			m.cnt["donation-to-future-escrow"]++
 		} else if strings.HasPrefix(op.To, "pool:") {
 			m.cnt["donation"]++
+			if strings.HasPrefix(op.Denom, "lpt:") && op.Denom[4:] == op.To[5:] {
+				m.cnt["own-share-tokens-parked-on-the-escrow"]++
+			}
 		}
 		return nil
 	case "params":
